@@ -54,7 +54,7 @@ func errReturnVia(from, b *ssa.BasicBlock) bool {
 }
 
 func checkC19(c *Check) {
-	c.Explanation = "Decided for every field of the network limits table and every path of the admission code: (R1) each ValidationConfig field is read by at least one comparison, in a function reachable from MsgCreateDeployment.ValidateBasic / the CreateDeployment handler, whose out-of-range edge returns a non-nil error, in the right direction (Max* as an upper bound, Min* as a lower bound); group totals are sdk.Int sums of per-unit values multiplied by the count; (R2) ValidateDeploymentGroups rejects empty lists and duplicate names and validates every element; ValidateBasic checks id, non-empty groups, version length and every group; the handler stores only after group validation and the deposit denomination/amount guards; prices must be in the network denomination; (R3) the deployment constructor is called only from that handler and genesis import."
+	c.Explanation = "Decided for every field of the network limits table and every path of the admission code: (R1) each ValidationConfig field is read by at least one comparison, in a function reachable from MsgCreateDeployment.ValidateBasic / the CreateDeployment handler, whose out-of-range edge returns a non-nil error, in the right direction (Max* as an upper bound, Min* as a lower bound); group totals are sdk.Int sums of per-unit values multiplied by the count; (R2) ValidateDeploymentGroups rejects empty lists and duplicate names and validates every element; ValidateBasic checks id, non-empty groups, version length and every group; the handler stores only after group validation and the deposit denomination/amount guards; prices must be in the network denomination; (R3) the deployment constructor is called only from that handler and genesis import. GroupSpec.GetResources hands every stored entry to validation."
 	c.NotDecided = "boundary arithmetic (off-by-one inside sdk.Int comparisons), overflow freedom of ResourceValue.Value()"
 	l := c.L
 	tp := l.Pkg("x/deployment/types")
@@ -120,6 +120,15 @@ func checkC19(c *Check) {
 							if !derived[x] {
 								derived[x] = true
 								work = append(work, x)
+							}
+						}
+						// the limit handed to a new helper: the helper's parameter stands for it
+						if h := newHelperCallee(x); h != nil {
+							for ai, a := range x.Call.Args {
+								if a == v && ai < len(h.Params) && !derived[h.Params[ai]] {
+									derived[h.Params[ai]] = true
+									work = append(work, h.Params[ai])
+								}
 							}
 						}
 					}
@@ -227,6 +236,7 @@ func checkC19(c *Check) {
 		c.Ob("R1", "limit "+f+" is compared with the untruncated quantity", pos, narrowed[f] == "", narrowed[f])
 	}
 	c.Floor("R1", 15)
+	c.everyEntryValidated("R1")
 	// totals: per-unit values are multiplied by the count and summed as sdk.Int
 	{
 		vrl := l.Func("x/deployment/types", "", "ValidateResourceList")
@@ -283,9 +293,10 @@ func checkC19(c *Check) {
 			f := l.Func("x/deployment/types", "", nm)
 			ok := true
 			for _, r := range successReturns(f) {
-				s := Sym(r.Results[0])
-				if !(strings.HasPrefix(s, "*p:u.") && strings.HasSuffix(s, ".Val")) {
-					ok = false
+				for _, s := range symsThroughHelper(r.Results[0], 0) {
+					if !(strings.HasPrefix(s, "*p:u.") && strings.HasSuffix(s, ".Val")) {
+						ok = false
+					}
 				}
 			}
 			c.Ob("R1", nm+" contributes the unit's own value to the group total", f.Pos(), ok, "")
@@ -469,7 +480,24 @@ func checkC19(c *Check) {
 			c.Ob("R2", "handler requires at least the minimum deposit", call.Pos(), amt, "")
 			// the groups stored are built from msg.Groups
 			gs := Sym(userArgs(call)[1])
-			c.Ob("R2", "stored groups are built from the validated message groups", call.Pos(), strings.Contains(gs, "local:groups") || strings.Contains(gs, "msg.Groups"), gs)
+			okGs := strings.Contains(gs, "local:groups") || strings.Contains(gs, "msg.Groups")
+			if mk, isMk := userArgs(call)[1].(*ssa.MakeSlice); isMk && !okGs {
+				// a slice made here and filled by index: every element stored takes its spec from msg.Groups
+				nst := 0
+				okGs = true
+				eachInstr(h, func(i ssa.Instruction) {
+					if st, isSt := i.(*ssa.Store); isSt {
+						if ia, isIA := st.Addr.(*ssa.IndexAddr); isIA && ia.X == ssa.Value(mk) {
+							nst++
+							if !strings.Contains(Sym(st.Val), "p:msg.Groups[") {
+								okGs = false
+							}
+						}
+					}
+				})
+				okGs = okGs && nst > 0
+			}
+			c.Ob("R2", "stored groups are built from the validated message groups", call.Pos(), okGs, gs)
 		}
 		// price denomination
 		vgp := l.Func("x/deployment/types", "", "validateGroupPricing")
@@ -495,6 +523,16 @@ func checkC19(c *Check) {
 					for _, r := range successReturns(vg) {
 						if !okEdgeAt(r.Block(), call.(*ssa.Call)) {
 							if cv, _ := callOf(r.Results[0]); cv != call.(*ssa.Call) {
+								all = false
+							}
+						}
+					}
+					if !all {
+						// the error carried in a variable to a common return: every way to a possibly-nil return has
+						// looked at it or hands it back, and no such return avoids the call
+						all = errHonoured(vg, call.(*ssa.Call))
+						for _, r := range successReturns(vg) {
+							if !mustPass(vg, r, func(in ssa.Instruction) bool { return in == ssa.Instruction(call) }) {
 								all = false
 							}
 						}
@@ -605,4 +643,59 @@ func truncatedFrom(v ssa.Value, seen map[ssa.Value]bool, depth int) string {
 		return truncatedFrom(x.Tuple, seen, depth+1)
 	}
 	return ""
+}
+
+// everyEntryValidated: the bounds are enforced on what GroupSpec.GetResources() hands to ValidateResourceList, while
+// the handler stores g.Resources itself. GetResources must therefore hand over one entry per stored entry: where it
+// builds its result by appending (or storing by index) in a loop over the group's entries, every pass of the loop
+// body reaches that append. A pass that skips it leaves a stored entry unvalidated. Other forms are not decided.
+func (c *Check) everyEntryValidated(rule string) {
+	l := c.L
+	fn := l.Func("x/deployment/types", "GroupSpec", "GetResources")
+	c.Analysed(fnName(fn))
+	var adds []ssa.Instruction
+	eachInstr(fn, func(i ssa.Instruction) {
+		switch x := i.(type) {
+		case *ssa.Call:
+			if calleeFull(x) == "builtin.append" && loopHeaderOf(x.Block()) != nil {
+				adds = append(adds, x)
+			}
+		case *ssa.Store:
+			if ia, ok := x.Addr.(*ssa.IndexAddr); ok && loopHeaderOf(x.Block()) != nil {
+				if _, isMk := ia.X.(*ssa.MakeSlice); isMk {
+					adds = append(adds, x)
+				}
+			}
+		}
+	})
+	if len(adds) == 0 {
+		for _, r := range successReturns(fn) {
+			if strings.HasSuffix(Sym(r.Results[0]), "p:g.Resources") {
+				c.Ob(rule, "GetResources hands every stored resource entry to validation", fn.Pos(), true, "")
+				return
+			}
+		}
+		c.Info(rule, "GetResources: form not recognised, coverage of the stored entries not decided", fn.Pos(), "")
+		return
+	}
+	isAdd := func(in ssa.Instruction) bool {
+		for _, a := range adds {
+			if a == in {
+				return true
+			}
+		}
+		return false
+	}
+	h := loopHeaderOf(adds[0].Block())
+	body := loopBlocks(h)
+	ok := true
+	for _, s := range h.Succs {
+		if !body[s] || s == h {
+			continue
+		}
+		if !mustPassAvoidingFrom(fn, s, h.Instrs[0], isAdd, func(*ssa.BasicBlock, int) bool { return false }) {
+			ok = false
+		}
+	}
+	c.Ob(rule, "GetResources hands every stored resource entry to validation", adds[0].Pos(), ok, "a pass of the loop over the group's entries skips the append: that entry is stored with the deployment but its bounds (and its share of the unit count) are never checked")
 }
